@@ -601,7 +601,10 @@ let () =
   let cmd = Sys.argv.(1) in
   let lines = read_lines Sys.argv.(2) in
   if cmd = "dirs" then (dirs_run lines; exit 0);
-  if cmd = "hist" then (hist_run m_init mstep (fun m -> List.map snd m.m_cont) lines; exit 0);
+  (* "hist": the use-case model behind the client layer (a handle that ended refuses writes itself);
+     "hist-uc": the use-case model alone (what the server does with a late write: finding D7 before its repair) *)
+  if cmd = "hist" then (hist_run m_init cstep (fun m -> List.map snd m.m_cont) lines; exit 0);
+  if cmd = "hist-uc" then (hist_run m_init mstep (fun m -> List.map snd m.m_cont) lines; exit 0);
   if cmd = "hist-spec" then
     (hist_run a_init astep
        (fun a -> List.concat_map (fun (_, l) -> List.filter_map (fun e -> e.a_val) l) a.a_vers) lines; exit 0);
